@@ -6,7 +6,10 @@ Open Scope Z_scope.
 
 Inductive hcase : Type :=
 | HC10 (pool : list value) (signs keys : list T)
-| HHist (steps : list (op * T * option T)).   (* op, observed result, observed raw dump (if taken) *)
+| HHist (steps : list (op * T * option T))    (* op, observed result, observed raw dump (if taken) *)
+| HNorm (g : goval) (obs : T)                 (* internal.Normalize on a Go value *)
+| HSat (c : gcrit) (d : obj) (obs : T)        (* normalise the criteria, then Criteria.Satisfy(doc) *)
+| HDocSet (d : obj) (name : bytes) (g : goval) (probe : bytes) (obs : T). (* Set then Get/Has of probe *)
 
 (* one history: stop at the first disagreement; report (index, model result, model dump if compared) *)
 Fixpoint check_hist (i : Z) (db : dbst) (steps : list (op * T * option T)) : list T :=
@@ -26,10 +29,28 @@ Fixpoint check_hist (i : Z) (db : dbst) (steps : list (op * T * option T)) : lis
 
 Definition T_of_diffs (l : list (Z * T)) : list T := map (fun d => TL [TZ (fst d); snd d]) l.
 
+Definition T_of_nres (r : nres) : T :=
+  match r with
+  | NOk v => TL [TZ 0; T_of_value v]
+  | NErr => TL [TZ 1]
+  | NBytes => TL [TZ 2]
+  end.
+
+Definition expect (m obs : T) : list T := if T_eqb m obs then [] else [m].
+
 Definition check_case (c : hcase) : list T :=
   match c with
   | HC10 pool signs keys => c10_check pool signs keys
   | HHist steps => check_hist 0 empty_db steps
+  | HNorm g obs => expect (T_of_nres (normalize g)) obs
+  | HSat c d obs =>
+      expect (match norm_crit c with
+              | Some c' => TL [TZ 0; Tbool (sat c' d)]
+              | None => TL [TZ 1]
+              end) obs
+  | HDocSet d name g probe obs =>
+      let d' := doc_set_go name g d in
+      expect (TL [T_of_doc d'; Tbool (doc_has probe d'); T_of_value (doc_get probe d')]) obs
   end.
 
 (* used by the in-Coq (vm_compute) sample check: indices of the cases that disagree *)
